@@ -1,6 +1,6 @@
 ------------------------------- MODULE MCTree -------------------------------
 (* C19 S1/S2 for trees: Init enumerates every rooted tree in the bounds (all labellings, arity
-   2..MaxArity, optional unary nodes, three branch-length patterns); one step computes what the
+   2..MaxArity, optional unary nodes, four branch-length patterns, one of them with negative lengths); one step computes what the
    public calls must return (res); the invariants are the laws of the property. *)
 EXTENDS Phylo, TLC
 CONSTANTS MaxLeaves, MaxArity, Pats, UnaryUpTo     \* unary nodes and chains in the trees with <= UnaryUpTo leaves
